@@ -76,26 +76,13 @@ Proof.
     rewrite (span_digits_all _ H1), H3. cbn [Z.to_N]. rewrite positive_N_Z. rewrite Hr. reflexivity.
   - destruct (G (N.pos p)) as [c [d [E Hc]]]. destruct (dec_of_N_spec (N.pos p)) as [H1 [_ H3]]. rewrite E in *.
     unfold skip_blanks. rewrite span_none by reflexivity. cbn [snd]. change (45 =? 45) with true. cbv iota.
-    rewrite (span_digits_all _ H1), H3. rewrite positive_N_Z. change (- Z.pos p)%Z with (Z.neg p). rewrite Hr. reflexivity.
+    rewrite (span_digits_all _ H1), H3. rewrite positive_N_Z. change (- Z.pos p)%Z with (Z.neg p). rewrite Hr.
+    assert (Hm : (ity_min k =? 0)%Z = false) by (unfold in_range in Hr; lia). rewrite Hm. reflexivity.
 Qed.
 
-(* the same for an attribute (as_int / as_llong ...: no range check in the model) *)
-Lemma load_attr_int_dec xs xf k z : load_xml_attr xs xf (TyInt k) (dec_of_Z z) = Loaded (VInt z).
-Proof.
-  unfold load_xml_attr.
-  assert (G : forall n, exists c d, dec_of_N n = c :: d /\ is_digit c = true).
-  { intros n. destruct (dec_of_N_spec n) as [H1 [H2 _]]. destruct (dec_of_N n) as [|c d]; [congruence|].
-    exists c, d. split; [reflexivity|]. cbn in H1. apply andb_true_iff in H1. tauto. }
-  destruct z as [|p|p]; unfold dec_of_Z.
-  - destruct (G (Z.to_N 0)) as [c [d [E Hc]]]. destruct (dec_of_N_spec (Z.to_N 0)) as [H1 [_ H3]]. rewrite E in *.
-    assert (E45 : (c =? 45) = false) by (unfold is_digit in Hc; lia). rewrite E45.
-    rewrite (span_digits_all _ H1), H3. reflexivity.
-  - destruct (G (Z.to_N (Z.pos p))) as [c [d [E Hc]]]. destruct (dec_of_N_spec (Z.to_N (Z.pos p))) as [H1 [_ H3]]. rewrite E in *.
-    assert (E45 : (c =? 45) = false) by (unfold is_digit in Hc; lia). rewrite E45.
-    rewrite (span_digits_all _ H1), H3. cbn [Z.to_N]. rewrite positive_N_Z. reflexivity.
-  - destruct (dec_of_N_spec (N.pos p)) as [H1 [_ H3]]. change (45 =? 45) with true. cbv iota.
-    rewrite (span_digits_all _ H1), H3. rewrite positive_N_Z. reflexivity.
-Qed.
+(* the same for an attribute (LoadValueFromText on attr.value(): the same conversion) *)
+Lemma load_attr_int_dec xs xf o k z : in_range k z = true -> load_xml_attr xs xf o (TyInt k) (dec_of_Z z) = Loaded (VInt z).
+Proof. intros H. cbn [load_xml_attr conv_xml_text]. apply parse_int_text_dec. exact H. Qed.
 
 Lemma norm_eol_nocr s : existsb (N.eqb 13) s = false -> norm_eol s = s.
 Proof.
@@ -218,12 +205,12 @@ Section XmlRoundTrip.
       destruct (dec_nocr z) as [H1 [H2 H3]]. cbn [has_type] in Ht.
       assert (E : saved_view (XElem name [] (text_child (dec_of_Z z))) = XElem name [] [XText (dec_of_Z z)]).
       { unfold text_child. destruct (dec_of_Z z) eqn:Ez; [congruence|]. cbn [saved_view map]. rewrite (norm_eol_nocr _ H1). reflexivity. }
-      rewrite E. cbn [load_xml_inner load_xml_scalar first_text]. rewrite (parse_int_text_dec o k z Ht). repeat split; reflexivity.
+      rewrite E. cbn [load_xml_inner load_xml_scalar first_text conv_xml_text]. rewrite (parse_int_text_dec o k z Ht). repeat split; reflexivity.
     - (* double *)
       cbn [val_nonfinite] in Hnf. destruct (Hd bits Hnf) as [H1 [H2 [H3 H4]]].
       assert (E : saved_view (XElem name [] (text_child (dtoa17 bits))) = XElem name [] [XText (dtoa17 bits)]).
       { unfold text_child. destruct (dtoa17 bits) eqn:Ez; [congruence|]. cbn [saved_view map]. rewrite (norm_eol_nocr _ H3). reflexivity. }
-      rewrite E. cbn [load_xml_inner load_xml_scalar first_text]. rewrite H2, H1. repeat split; reflexivity.
+      rewrite E. cbn [load_xml_inner load_xml_scalar first_text conv_xml_text]. rewrite H2, H1. repeat split; reflexivity.
     - (* string *)
       cbn [xml_defect] in Hdf. destruct s as [|c s].
       + repeat split; discriminate.
@@ -426,7 +413,7 @@ Section XmlRoundTrip.
       | [] => Loaded (VObj [])
       | (k, fk, ft) :: fs' =>
         let r := match fk with
-                 | FAttr => match find_attr attrs k with Some s => load_xml_attr xstrtod xstrtof ft s | None => NotLoaded end
+                 | FAttr => match find_attr attrs k with Some s => load_xml_attr xstrtod xstrtof o ft s | None => NotLoaded end
                  | FElem => match find_child ch k with Some c => load_xml_inner xstrtod xstrtof o false ft c | None => NotLoaded end
                  end in
         match r with
@@ -446,13 +433,13 @@ Section XmlRoundTrip.
 
   (* an attribute comes back *)
   Lemma attr_rt ft fv s : is_scalar_ty ft = true -> has_type ft fv = true -> val_nonfinite fv = false ->
-    scalar_text dtoa17 dtoa9 ft fv = Some s -> gotx ft (load_xml_attr xstrtod xstrtof ft s) = Some fv.
+    scalar_text dtoa17 dtoa9 ft fv = Some s -> gotx ft (load_xml_attr xstrtod xstrtof o ft s) = Some fv.
   Proof.
     intros Hsc Ht Hnf Hs. destruct ft; try discriminate; destruct fv; try discriminate; cbn [scalar_text] in Hs; inversion Hs; subst; clear Hs.
     - reflexivity.
     - destruct b; reflexivity.
-    - rewrite load_attr_int_dec. reflexivity.
-    - cbn [val_nonfinite] in Hnf. destruct (Hd bits Hnf) as [H1 _]. cbn [load_xml_attr]. rewrite H1. reflexivity.
+    - rewrite (load_attr_int_dec _ _ _ _ _ Ht). reflexivity.
+    - cbn [val_nonfinite] in Hnf. destruct (Hd bits Hnf) as [H1 [H2 _]]. cbn [load_xml_attr conv_xml_text]. rewrite H2, H1. reflexivity.
     - reflexivity.
   Qed.
 
@@ -541,7 +528,7 @@ Section XmlRoundTrip.
         assert (Hrest : xobj_go A0 C0 fs = Loaded (VObj ms)).
         { apply (IH ms A' C Hc2 Hty2 Hdf Hn2 Ep); [|exact HC]. intros k0 s0 Hin. apply HA. right. exact Hin. }
         cbn [xobj_go]. rewrite Hfa, Hrest.
-        destruct (load_xml_attr xstrtod xstrtof ft s); cbn in I1; inversion I1; subst; reflexivity.
+        destruct (load_xml_attr xstrtod xstrtof o ft s); cbn in I1; inversion I1; subst; reflexivity.
   Qed.
 
   Definition fname (f : list N * fkind * ty) : list N := fst (fst f).
